@@ -44,7 +44,7 @@ def run(ctx: common.Ctx) -> None:
     ctx.assumptions += ["cold oracle = typeshed-only base cache built with the same options",
                         "options that cannot share a cache or only affect process behaviour are classified excluded:<reason> by rule (listed in evidence)",
                         "files are not edited between runs (source mtimes constant)"]
-    cfgs = list(CONFIGS.values()) if not quick else [CONFIGS["sqlite-bin"]]
+    cfgs = [CONFIGS["sqlite-bin"], CONFIGS["fs-json"]] if not quick else [CONFIGS["sqlite-bin"]]
     with common.workdir("C09") as wd:
         env = common.base_env(VERIF_POOL_ROOT=wd)
         with Pool(env=env) as pool:
@@ -61,7 +61,7 @@ def run(ctx: common.Ctx) -> None:
             def tasks() -> Iterator[dict[str, Any]]:
                 for f in table:
                     for v in f.get("variants", []):
-                        wl = [0] + ([1, 4] if f["dest"] in LAYOUT_DESTS or not quick else [])
+                        wl = [0] + ([1, 4] if f["dest"] in LAYOUT_DESTS else [] if quick else [4])
                         for w in wl:
                             for ci, cfg in enumerate(cfgs):
                                 yield {"fn": "vlib.tasks.opts:toggle",
@@ -93,7 +93,7 @@ def run(ctx: common.Ctx) -> None:
                 # (2) two boolean options of the live table swapped (seeded sample)
                 bools = [f for f in table if f.get("variants") and f["boolean"]]
                 r = common.rng_for("C09", "pairs", ctx.seed)
-                for _ in range(12 if quick else 100):
+                for _ in range(12 if quick else 40):
                     fa, fb = r.sample(bools, 2)
                     yield {"fn": "vlib.tasks.opts:toggle", "args": {"widx": 0, "flags_a": fa["variants"][0], "flags_b": fb["variants"][0], "config": cfg},
                            "_dest": f"pair:{fa['dest']}+{fb['dest']}", "_opt": f"{fa['opt']} => {fb['opt']}", "_w": 0, "_key": True, "_form": "pair"}
